@@ -1,11 +1,64 @@
-From Coq Require Import List NArith Bool.
-From NV Require Import Gen.Fat.
+(* C10 -- Running out of space fails cleanly with ENOSPC and a consistent volume. Statements only. *)
+From Coq Require Import List NArith ZArith Bool.
+From NV Require Import Lib.Res Gen.Fat Fat.Spec.
+From NV Require Import FatTable.Model FatTable.ProofsBase FatTable.ProofsSet32 FatTable.Proofs.
+From NV Require Import FatAlloc.Model FatAlloc.ProofsBase FatAlloc.ProofsGrow FatAlloc.ProofsOps FatAlloc.ProofsWrite FatAlloc.ProofsFrame FatAlloc.Proofs.
+Import ListNotations.
 Open Scope N_scope.
+
+(* only clusters that exist in the data area (and are free) are ever handed out *)
+Theorem C10_free_in_data_area :
+  forall (bits : N) (t : list N) (limit : N) (hint : option N) (c : N), In c (free_scan (PB bits) t limit hint) -> min_valid (PB bits) < c /\ c < limit /\ c < len t /\ get t c = 0.
+Proof. exact FatAlloc.Proofs.FA_free_in_data_area. Qed.
+Print Assumptions C10_free_in_data_area.
+
+(* one scan never yields a cluster twice (FAT32 hint wrap-around included) *)
+Theorem C10_free_nodup :
+  forall (bits : N) (t : list N) (limit : N) (hint : option N), NoDup (free_scan (PB bits) t limit hint).
+Proof. exact FatAlloc.Proofs.FA_free_nodup. Qed.
+Print Assumptions C10_free_nodup.
+
+(* ENOSPC only when there really is no free cluster *)
+Theorem C10_free_complete :
+  forall (bits : N) (t : list N) (limit : N) (hint : option N) (c : N), min_valid (PB bits) < c -> c < limit -> c < len t -> get t c = 0 -> c <= max_valid (PB bits) -> In c (free_scan (PB bits) t limit hint).
+Proof. exact FatAlloc.Proofs.FA_free_complete. Qed.
+Print Assumptions C10_free_complete.
+
+(* growing truncate fails exactly when too few clusters are free, and then with ENOSPC (all or nothing: the state is returned unchanged) *)
+Theorem C10_truncate_enospc :
+  forall bits cs limit : N, 0 < cs -> limit <= max_valid (PB bits) + 1 -> forall (newsize : N) (st : fstate) (e : exn), truncate (PB bits) cs limit newsize st = Err e <-> e = OSError_ENOSPC /\ newsize <> size st /\ len (map st) < trunc_clusters cs newsize /\ (length (free_scan (PB bits) (tbl st) limit (hint_of (sfat st))) < N.to_nat (trunc_clusters cs newsize - len (map st)))%nat.
+Proof. exact FatAlloc.Proofs.FA_truncate_enospc. Qed.
+Print Assumptions C10_truncate_enospc.
+
+Theorem C10_truncate_enospc_genuine :
+  forall bits cs limit : N, 0 < cs -> limit <= max_valid (PB bits) + 1 -> forall (newsize : N) (st : fstate) (e : exn) (l : list N), truncate (PB bits) cs limit newsize st = Err e -> NoDup l -> (forall c : N, In c l -> is_free (PB bits) limit (tbl st) c /\ c <= max_valid (PB bits)) -> (length l < N.to_nat (trunc_clusters cs newsize - len (map st)))%nat.
+Proof. exact FatAlloc.Proofs.FA_truncate_enospc_genuine. Qed.
+Print Assumptions C10_truncate_enospc_genuine.
+
+Theorem C10_alloc_one_enospc :
+  forall (bits limit : N) (st : fstate) (e : exn), alloc_one (PB bits) limit st = Err e <-> e = OSError_ENOSPC /\ free_scan (PB bits) (tbl st) limit (hint_of (sfat st)) = [].
+Proof. exact FatAlloc.Proofs.FA_alloc_one_enospc. Qed.
+Print Assumptions C10_alloc_one_enospc.
+
+(* a write that runs out of space leaves the file well-formed, holding a prefix, size and chain in agreement *)
+Theorem C10_write_enospc_wf :
+  forall bits cs limit : N, 0 < cs -> limit <= max_valid (PB bits) + 1 -> forall (nbytes : N) (st : fstate), st_wf (PB bits) cs limit st -> let r := write_clusters (PB bits) cs limit nbytes st in st_wf (PB bits) cs limit (fst r) /\ extends (PB bits) limit (tbl st) (map st) (tbl (fst r)) (map (fst r)) /\ (snd r = true -> pos (fst r) = pos st + nbytes /\ size (fst r) = N.max (size st) (pos st + nbytes) /\ (0 < nbytes -> cdiv (pos st + nbytes) cs <= len (map (fst r)))) /\ (snd r = false -> fst r = st \/ free_scan (PB bits) (tbl (fst r)) limit (hint_of (sfat (fst r))) = [] /\ pos (fst r) = len (map (fst r)) * cs /\ size (fst r) = N.max (size st) (pos (fst r))).
+Proof. exact FatAlloc.Proofs.FA_write_wf. Qed.
+Print Assumptions C10_write_enospc_wf.
+
+Theorem C10_truncate_wf :
+  forall bits cs limit : N, 0 < cs -> limit <= max_valid (PB bits) + 1 -> forall (newsize : N) (st st' : fstate), st_wf (PB bits) cs limit st -> truncate (PB bits) cs limit newsize st = Ok st' -> st_wf (PB bits) cs limit st' /\ size st' = newsize /\ pos st' = pos st /\ length (tbl st') = length (tbl st) /\ ((exists new : list N, new <> [] /\ map st' = map st ++ new /\ new = firstn (length new) (free_scan (PB bits) (tbl st) limit (hint_of (sfat st))) /\ extends (PB bits) limit (tbl st) (map st) (tbl st') (map st')) \/ (exists removed : list N, removed <> [] /\ map st = map st' ++ removed /\ map st' <> [] /\ (forall c : N, In c removed -> get (tbl st') c = 0) /\ (forall c : N, ~ In c (map st) -> get (tbl st') c = get (tbl st) c)) \/ map st' = map st /\ sfat st' = sfat st).
+Proof. exact FatAlloc.Proofs.FA_truncate_wf. Qed.
+Print Assumptions C10_truncate_wf.
+
+Theorem C10_history_wf :
+  forall bits cs limit : N, 0 < cs -> limit <= max_valid (PB bits) + 1 -> forall (ops : list (nat * op)) (v : volume), vol_wf (PB bits) cs limit v -> vol_wf (PB bits) cs limit (fold_left (vstep (PB bits) cs limit) ops v) /\ (forall c : N, foreign v c -> foreign (fold_left (vstep (PB bits) cs limit) ops v) c /\ get (ftbl (vfat (fold_left (vstep (PB bits) cs limit) ops v))) c = get (ftbl (vfat v)) c).
+Proof. exact FatAlloc.Proofs.FA_history. Qed.
+Print Assumptions C10_history_wf.
+
+
 Theorem C10_source_facts :
-  (fat12_min_valid, fat12_max_valid, fat12_end_mark) = (2, 4079, 4095) /\
-  (fat16_min_valid, fat16_max_valid, fat16_end_mark) = (2, 65519, 65535) /\
-  (fat32_min_valid, fat32_max_valid, fat32_end_mark) = (2, 268435439, 268435455) /\
-  (fat12_threshold, fat16_threshold) = (4085, 65525) /\ fs_default_atime = false /\
-  de_sizeof = 32 /\ lfn_sizeof = 32 /\ bpb_sizeof = 36 /\ lfn_checksum_standard = true.
+  (fat12_min_valid, fat12_max_valid) = (2, 4079) /\ (fat16_min_valid, fat16_max_valid) = (2, 65519) /\
+  (fat32_min_valid, fat32_max_valid) = (2, 268435439).
 Proof. repeat split; reflexivity. Qed.
 Print Assumptions C10_source_facts.
